@@ -744,6 +744,8 @@ def run(ctx):
         # Broken obligation (the stale table is NOT trusted), and the search for a failing input goes on.
         ctx.broke("wiring extractor (Generated/Wiring.lean could not be regenerated)", repr(exc))
     core.lean_stage(ctx, MODULE, FILE, drivers=["drv_heap"])
+    from harness.props import _tie
+    _tie.emission_tie(ctx)  # layer 3: calc_theory_date / update / activate of the emission classes, translated from the current source
     source_stage(ctx)
     object_stage(ctx)
     history_stage(ctx)
